@@ -61,5 +61,5 @@ def R_accounts(run, rule="RA", structs=None):
             run.check(rule, "constraints:%s.%s" % (sname, fname), not diff,
                       "%s.%s: constraint kinds changed (pinned -> now): %s" % (sname, fname, ", ".join("%s %d -> %d" % (k, a, b) for k, (a, b) in sorted(diff.items()))),
                       detail=", ".join("%s x%d" % kv for kv in sorted(kinds.items())) or "no constraints")
-    if table():
-        run.floor(rule, "account fields with recorded constraints", n, 100 if structs is None else 1)
+    if table() and structs is None:
+        run.floor(rule, "account fields with recorded constraints", n, 100)
